@@ -146,11 +146,29 @@ def run(ck):
             continue
         if v[0] == "app":
             best = (ctx.p.get_function(v[1]), v, pa)
+    inlined = None
     if best is None:
+        # the selection helper was read through (renamed / moved / inlined): the returned expression is the selection, applied to
+        # the candidate rows zip(*...)[0]
+        for pa in wrets:
+            v = pa.value
+            if v == T.NONE:
+                continue
+            cands = [x for x in T.subterms(v) if x[0] == "idx" and x[2] == C(0) and x[1][0] == "call" and x[1][1] == "zip"]
+            if cands:
+                from types import SimpleNamespace
+                inlined = (SimpleNamespace(value=T.substitute(v, {cands[0]: V("#candidates")}), node=pa.node,
+                                           state=SimpleNamespace(assumptions=[])), cands[0], pa)
+    if best is None and inlined is None:
         raise AnalysisError(f"{worker.where}: the worker does not return the result of a selection function")
-    bfn, bapp, bpa = best
-    brets = [pa for pa in explore(ck, bfn) if pa.outcome == "return"]
-    bparam0 = V(bfn.call_params()[0].name)
+    if best is not None:
+        bfn, bapp, bpa = best
+        brets = [pa for pa in explore(ck, bfn) if pa.outcome == "return"]
+        bparam0 = V(bfn.call_params()[0].name)
+    else:
+        bfn, bapp, bpa = worker, None, inlined[2]
+        brets = [inlined[0]]
+        bparam0 = V("#candidates")
     guarded_none = False
     if len(brets) > 1:
         # `if not candidates: return None` in front of the selection plays the role of the None default
@@ -173,7 +191,7 @@ def run(ck):
     if sel is not None and guarded_none and not sel["has_default"]:
         sel["has_default"], sel["default"] = True, T.NONE
     wb = where(bfn, brets[0].node)
-    bparam = V(bfn.call_params()[0].name)
+    bparam = bparam0
     if sel is None:
         bv = brets[0].value
         inner = bv
@@ -208,7 +226,7 @@ def run(ck):
              found="; ".join(probs) if probs else T.show(brets[0].value)[:160],
              required="ARGMAX(confidence) over the candidates, default None")
     # the candidates handed over are all rows built from the selected peaks
-    arg = list(dict(bapp[3]).values())[0] if bapp[3] else None
+    arg = (list(dict(bapp[3]).values())[0] if bapp[3] else None) if bapp is not None else inlined[1]
     ok = arg is not None and arg[0] == "idx" and arg[2] == C(0) and arg[1][0] == "call" and arg[1][1] == "zip"
     if ok:
         ck.ok("C05.3", short(worker) + ":candidates", where(worker, bpa.node),
@@ -268,11 +286,20 @@ def run(ck):
 
 # groupby sites whose input is deliberately not sorted by the key: (function, reason)
 GROUPBY_EXCEPTIONS = {
-    "AlignmentResultRow.__removeDuplicateQueryPositionsPreservingLastOne":
+    # keyed by a public entry point; covers it and the private helpers reachable only from it (see rules.common.reachable_only_from)
+    "AlignmentResultRow.cigarString":
         "groups *adjacent* pairs of one query label inside a list ordered by reference position (run-length style, on purpose)",
-    "AlignmentRowComparer.__combineMultipleQuerySources":
+    "AlignmentRowComparer.compare":
         "diagnostic comparer: groups adjacent pairs of one query label in alignment order (outside the aligner's output path)",
 }
+
+
+def _groupby_exception(ctx, fn):
+    from ..rules.common import reachable_only_from
+    for root_short, why in GROUPBY_EXCEPTIONS.items():
+        if reachable_only_from(ctx, fn, root_short):
+            return why
+    return None
 
 
 def groupby_inputs_sorted(ck, rule, only_functions=None):
@@ -305,8 +332,9 @@ def groupby_inputs_sorted(ck, rule, only_functions=None):
                     n_gb += 1
                     construct = f"{short(fn)}:groupby-key"
                     w = where(fn, node)
-                    if short(fn) in GROUPBY_EXCEPTIONS:
-                        ck.ok(rule, construct, w, "frozen exception: " + GROUPBY_EXCEPTIONS[short(fn)])
+                    exc = _groupby_exception(ctx, fn)
+                    if exc is not None:
+                        ck.ok(rule, construct, w, "frozen exception: " + exc)
                         continue
                     s = sort_spec(inp)
                     while s is None and inp[0] == "call" and inp[1] in ("list", "iter", "tuple") and len(inp[2]) == 1:
@@ -385,7 +413,10 @@ def seeds_over_all_references(ck, rule):
     from ..rules.common import path_terms
     ck.clause(rule, "the top-count seeds are chosen once, over the correlations of all references and both strands")
     ctx = ck.ctx
-    fn = ctx.p.find_method("_WorkflowCoordinator", "__align")
+    from ..rules.common import parallel_map_site, private_anchor
+    fn = parallel_map_site(ctx)[4]                      # the per-query worker, whatever it is called
+    pc_q = private_anchor(ctx, "_WorkflowCoordinator", "__getPrimaryCorrelations", "_WorkflowCoordinator.execute",
+                          calls=("getInitialAlignment",)).qualname
     params = [pp.name for pp in fn.call_params()]
     refs = V(params[0])
     calls = []
@@ -399,9 +430,9 @@ def seeds_over_all_references(ck, rule):
         arg = list(dict(x[3]).values())[0] if x[3] else None
         w = where(fn, node)
         ok = arg is not None and arg[0] == "comp" and len(arg[3]) == 2 and arg[3][0][0] == refs and not arg[3][0][1] \
-            and arg[3][1][0][0] == "app" and arg[3][1][0][1].endswith("__getPrimaryCorrelations") and not arg[3][1][1] \
+            and arg[3][1][0][0] == "app" and arg[3][1][0][1] == pc_q and not arg[3][1][1] \
             and arg[2][0] == "bv"
-        per_reference = arg is not None and arg[0] == "app" and arg[1].endswith("__getPrimaryCorrelations")
+        per_reference = arg is not None and arg[0] == "app" and arg[1] == pc_q
         if ok:
             ck.ok(rule, short(fn) + ":selection-input", w, "selectPeaks receives the correlations of every reference the worker "
                   "was given, flattened into one sequence", T.show(arg)[:200])
